@@ -44,6 +44,9 @@ def run(chk, tier):
         cr.check_resolve(chk, prog, prog.config, rule="R2.6b")
         # premise "the definition behind an id does not depend on which alias was met first"
         ci.check_identities(chk, prog, prog.config)
+        # "every id resolves, in the final registry, to the portable image": also in the registry that retain leaves behind
+        from . import c10
+        c10.check_config(chk, prog, prog.config)
     n = len({i["construct"] for i in chk.instances if i["rule"] == "R2.1" and i["construct"].startswith("impl:")})
     chk.floor("R2.1", n, 14, "IntoPortable impls counted by hand: 13 ADTs + &'static str")
     nf = len({i["construct"] for i in chk.instances if i["rule"] == "R2.1" and i["construct"].startswith("field:")})
